@@ -727,7 +727,21 @@ def clone_before_mutate(ctx, res):
     repo = get_pyrepo(ctx)
     mod = repo.module(HT)
     n = 0
-    for qual, fn in mod.functions.items():
+    # private module-level helpers that are called by name somewhere in the
+    # module: a trait they receive as a parameter is their callers' business
+    # (the callers are analysed with the helper inlined)
+    called = {c.func.id for c in ast.walk(mod.tree) if isinstance(c, ast.Call)
+              and isinstance(c.func, ast.Name)}
+    for qual, fn0 in mod.functions.items():
+        try:
+            fn = repo.inlined(HT, qual, keep=("_add_notifiers",
+                                              "_clone_trait"))
+        except Exception:
+            fn = fn0
+        helper_params = set()
+        if "." not in qual and qual.startswith("_") and qual in called \
+                and qual != "_add_notifiers":
+            helper_params = {a.arg for a in fn0.args.args}
         calls = []
         for c in ast.walk(fn):
             if not isinstance(c, ast.Call):
@@ -748,6 +762,8 @@ def clone_before_mutate(ctx, res):
             if not isinstance(a0.func.value, ast.Name):
                 continue
             tv = norm(a0.func.value)
+            if tv in helper_params:
+                continue
             n += 1
             key = f"{qual}:{tv}"
             # the variable must be (re)assigned from _clone_trait / a fresh
